@@ -84,12 +84,21 @@ func genAllocConc(c *ctx) {
 		var held []net.IPNet
 		// fill up to a random level sequentially
 		fill := c.rng.Intn(nblocks + 1)
-		for i := 0; i < fill && c.count < c.n; i++ {
-			n, err := s.a.Allocate(net.IPNet{})
+		for i := 0; i < fill && c.count < c.n && !s.wedged; i++ {
+			var n net.IPNet
+			var err error
+			if watchdog(20*time.Second, func() string { n, err = s.a.Allocate(net.IPNet{}); return "done" }) == "HANG" {
+				c.emit(noHint, "HANG")
+				s.wedged = true
+				break
+			}
 			c.emit(noHint, fmtAllocRes(n, err))
 			if err == nil {
 				held = append(held, n)
 			}
+		}
+		if s.wedged {
+			continue // a call that does not come back: this allocator is not used any more
 		}
 		// many rounds of k callers naming the SAME block (or none) at once: the blocks handed out in
 		// a round must be pairwise different; everything is freed again after each round
@@ -111,7 +120,7 @@ func genAllocConc(c *ctx) {
 			s.exec(c, fmt.Sprintf("afrace %d %d", 2+c.rng.Intn(5), 400))
 			s.exec(c, fmt.Sprintf("achurn %d %d", 4+c.rng.Intn(13), 300))
 		}
-		for round := 0; round < 4 && c.count < c.n; round++ {
+		for round := 0; round < 4 && c.count < c.n && !s.wedged; round++ {
 			if c.rng.Intn(2) == 0 || len(held) == 0 {
 				// k parallel allocations racing for what is left
 				k := 2 + c.rng.Intn(14)
@@ -127,6 +136,7 @@ func genAllocConc(c *ctx) {
 				for i := range fs {
 					if st[i] == "HANG" {
 						bad = append(bad, "HANG")
+						s.wedged = true
 						continue
 					}
 					r := fmtAllocRes(res[i], errs[i])
@@ -162,6 +172,11 @@ func genAllocConc(c *ctx) {
 					fs[i] = func() string { return fmtFreeRes(s.a.Free(targets[i])) }
 				}
 				st := together(fs)
+				for _, x := range st {
+					if x == "HANG" {
+						s.wedged = true
+					}
+				}
 				c.batch(len(targets))
 				// per block: the successful call first
 				order := make([]int, len(targets))
